@@ -184,10 +184,10 @@ PROPS["C11"] = {
     "special": lambda ctx: __import__("c11").special(ctx),
     "trusted": ["to_u64 fast path: num-integer's primitive Roots for u64 modelled by the spec-level bisection floor root (NB.Roots.floorRoot, proved = Nat.nthRoot)",
                 "float arm of the std guess is abstract (F64.Valid: a finite f64 evaluation yields a guess >= 1; to_f64 is finite below 2^1023); the driver instantiates it with Lean's native Float",
-                "value-level model: BigUint operators / * + >> << pow bits are Nat operators (C01-C03, C07); u64 overflow of the bit-count arithmetic (needs >= 2^63 bits) not modelled"],
+                "two-layer model: NB.Model.RootsD (run by the driver) uses the digit-level operator models for every BigUint operator of the Rust text (cmp_slice, bits, <<, >>, div_rem_ref, mulRef/mulAssign inside the pow_impl! loops, scalar_mul, +=, div_rem_digit, to_u64) and is proved to refine the value-level model NB.Model.Roots (roots_refine, bigint_roots_refine; operator theorems of C01-C03, C07 under P.ValidMul, canonical inputs with < 2^64 digits, degree <= 2^64); the capacity-driven operand choice of val+val additions is not modelled (both choices return the same digits); u64 overflow of the bit-count arithmetic (needs >= 2^63 bits) not modelled; the fuel of the digit-level fixpoint is computed from the value of the guess"],
     "assumptions": COMMON_ASSUME,
-    "level_text": "Theorems fixpoint_abstract_spec / fixpoint_spec (two-phase loop with saturation returns the floor root from EVERY guess >= 1, fuel g + 2^max_bits + 2 suffices), root_F_ge/lt/gt (Newton step facts, F_ge from Mathlib's Nat.nthRoot.lt_pow_go_succ_aux), nth_root_spec / nth_root_eq / sqrt_spec / cbrt_spec (n >= 1 -> r^n <= x < (r+1)^n = Nat.nthRoot, for every guess source with guesses >= 1), nostd_guess_ok and std_guess_ok (the 1<<max_bits guess, the scaled recursive guess and the fallback are >= 1; recursion depth 2 suffices), root_config_independent (std and no_std models return the same outcome for all x, n), guess_zero_panics (g >= 1 is necessary), bigint_nth_root_spec / bigint_sqrt_spec / bigint_cbrt_spec / bigint_odd_root_neg (sign transfer, imaginary and zero-degree panics). Tied to the source by a 3-way differential run (release and debug builds) over value classes x degrees x signs, and by a second harness build with num-bigint's std feature off whose C11 answers must be byte-identical.",
-    "level_note": "Trusted: Lean kernel + {propext, Classical.choice, Quot.sound}; num-integer's u64 roots modelled by the spec; IEEE float facts (finite evaluation gives a guess >= 1, to_f64 finite below 2^1023) assumed, not proved; value-level layering on C01-C03/C07; correspondence strength bounded by the generators.",
+    "level_text": "Theorems fixpoint_abstract_spec / fixpoint_spec (two-phase loop with saturation returns the floor root from EVERY guess >= 1, fuel g + 2^max_bits + 2 suffices), root_F_ge/lt/gt (Newton step facts, F_ge from Mathlib's Nat.nthRoot.lt_pow_go_succ_aux), nth_root_spec / nth_root_eq / sqrt_spec / cbrt_spec (n >= 1 -> r^n <= x < (r+1)^n = Nat.nthRoot, for every guess source with guesses >= 1), nostd_guess_ok and std_guess_ok (the 1<<max_bits guess, the scaled recursive guess and the fallback are >= 1; recursion depth 2 suffices), root_config_independent (std and no_std models return the same outcome for all x, n), guess_zero_panics (g >= 1 is necessary), bigint_nth_root_spec / bigint_sqrt_spec / bigint_cbrt_spec / bigint_odd_root_neg (sign transfer, imaginary and zero-degree panics). Layer link: roots_refine / bigint_roots_refine / fixpoint_refines / root_steps_refine / pow_digits_spec / nostd_src_refines / std_src_refines (the digit-level transcription NB.Model.RootsD returns, on canonical digit vectors, exactly the canonical digits of what the value-level model returns, same panics, for every pair of related guess sources and all P with P.ValidMul), hence nth_root_spec_D / nth_root_eq_D / sqrt_spec_D / cbrt_spec_D / std_root_spec_D / nostd_root_spec_D / root_config_independent_D / bigint_*_spec_D / gen_root_spec (the same statements about the digit-level functions the driver runs, instantiated at the extracted parameters). Tied to the source by a 3-way differential run (release and debug builds) over value classes x degrees x signs, and by a second harness build with num-bigint's std feature off whose C11 answers must be byte-identical.",
+    "level_note": "Trusted: Lean kernel + {propext, Classical.choice, Quot.sound}; num-integer's u64 roots modelled by the spec; IEEE float facts (finite evaluation gives a guess >= 1, to_f64 finite below 2^1023) assumed, not proved; digit-level model proved equal to the value-level one (layer link on C01-C03/C07/C12 operator theorems); the driver runs the digit-level model (std column always, no_std column up to 64 digits, value-level above); correspondence strength bounded by the generators.",
 }
 
 PROPS["C12"] = {
